@@ -331,6 +331,27 @@ def judge_record(ctx, rec):
         ctx.fail('files', f['what'], case, expected=f['expected'], observed=f['observed'], how=HOW)
 
 
+def corpus_cases(ctx):
+    """corpus/C17/*.json with a `file_history`: run first, in process; every analysis of the history is judged
+    (a failure does not end it: the history is re-run from the start up to each later analysis)"""
+    import json
+    cdir = os.path.join(common.CORPUS_DIR, 'C17')
+    if not os.path.isdir(cdir):
+        return
+    for fn in sorted(os.listdir(cdir)):
+        with open(os.path.join(cdir, fn), encoding='utf-8') as fh:
+            d = json.load(fh)
+        if 'file_history' not in d:
+            continue
+        tag = 'corpus_' + re.sub(r'\W', '_', fn)
+        r = run_file_history(d['versions'], d['file_history'], tag, fn)
+        rec = {'kind': 'file', 'seed': fn, 'family': 'corpus', 'versions': d['versions'], 'labels': r['steps'],
+               'raised': r['raised'], 'fails': []}
+        if r['fail'] is not None:
+            rec['fails'].append(dict(r['fail'], history=d['file_history'][:r['fail']['step'] + 1]))
+        judge_record(ctx, rec)
+
+
 def replay(ctx, inp, payload):
     vs = inp['versions']
     for k, v in enumerate(vs):
